@@ -107,6 +107,10 @@ func (mi *modeInterp) eval(v ssa.Value, env modeEnv) boolVal {
 			if fv, ok := x.X.(*ssa.FreeVar); ok {
 				return mi.evalAll(freeVarStores(fv), env)
 			}
+			// a bool that used to be captured, now a field of the struct the method was bound on
+			if vals := mi.p.boundFieldStores(x); len(vals) > 0 {
+				return mi.evalAll(vals, env)
+			}
 			if k := condKey(x, mi.preds); k != "" {
 				return env[k]
 			}
